@@ -266,13 +266,43 @@ def v4(run, ven):
     run.need(len(shared) >= 2, 'no helper function is defined in both headers (found %s)' % shared)
     for name in shared:
         def seq(t):
+            """canonical form of the helper's CFG: nodes numbered in depth-first order from the entry (successors by label), a declaration
+            with an initialiser reads as the assignment it is, nodes that do nothing (plain declarations, joins) are contracted: so
+            `T x = e;` and `T x; x = e;` are the same function, and a statement moved into or out of a branch is not"""
             g = CFG(t.func(name), t)
-            nodes = list(g.nodes.values()) if isinstance(g.nodes, dict) else list(g.nodes)
-            order = {n.id: i for i, n in enumerate(sorted(nodes, key=lambda x: x.id))}
-            # statement text AND shape: every node with its labelled successors (positions in creation order), so that a statement moved
-            # into or out of a branch is a difference even though the statement list reads the same
-            return [(n.kind, stmt_text(n.ast) if n.ast is not None else '', tuple(sorted((order.get(t_, -1), str(l)) for t_, l in n.succ)))
-                    for n in sorted(nodes, key=lambda x: x.id)]
+            nodes = {n.id: n for n in (g.nodes.values() if isinstance(g.nodes, dict) else g.nodes)}
+
+            def text(n):
+                if n.ast is None:
+                    return ''
+                if n.ast.get('kind') == 'DeclStmt':
+                    out = []
+                    for d in cx.kids(n.ast):
+                        if d.get('kind') == 'VarDecl' and d.get('init') and cx.kids(d):
+                            out.append('%s = %s' % (d.get('name'), cx.render(cx.kids(d)[-1])))
+                    return '; '.join(out)
+                return stmt_text(n.ast)
+
+            def skip(n):
+                return n.kind not in ('cond', 'switch', 'return') and text(n) == '' and len(n.succ) == 1 and n.id != g.exit.id
+
+            def eff(nid, seen=()):
+                n = nodes[nid]
+                while skip(n) and n.id not in seen:
+                    seen = seen + (n.id,)
+                    n = nodes[n.succ[0][0]]
+                return n.id
+            num, order, stack = {}, [], [eff(g.entry.id)]
+            while stack:
+                nid = stack.pop()
+                if nid in num:
+                    continue
+                num[nid] = len(order)
+                order.append(nid)
+                for t_, l in sorted(nodes[nid].succ, key=lambda x: str(x[1]), reverse=True):
+                    stack.append(eff(t_))
+            return [(nodes[nid].kind if nodes[nid].ast is not None and nodes[nid].ast.get('kind') != 'DeclStmt' else 'stmt', text(nodes[nid]),
+                     tuple(sorted((num[eff(t_)], str(l)) for t_, l in nodes[nid].succ))) for nid in order]
         a, b = seq(tu), seq(w)
         diff = next(((x, y) for x, y in zip(a, b) if x != y), None) or ((len(a), len(b)) if len(a) != len(b) else None)
         run.ob('V4/shared-runtime-helpers-are-identical', name, 'vengine_cpy.cffimod_header ~ _cffi_include.h', diff is None, 'src/cffi/vengine_cpy.py',
